@@ -228,8 +228,8 @@ HARNESS(no_nav_node_no_highlight, 6) {
 def nav_lemma(run):
     sp = _sl.Source.get("src/speech.rs")
     fm = sp.find("fn find_match")
-    arm = sp.find_bracketed("Ok ( s ) => {", within=fm)[0]
-    body = arm.text[arm.text.index("{") + 1: arm.text.rindex("}")]
+    arm = sp.find_arm("Ok ( s ) =>", within=fm)
+    body = arm.text
     nav = sp.find("fn nav_node_adjust")
     enum = sp.find("enum RulesFor")
     run.uses(arm, nav, enum)
